@@ -55,20 +55,22 @@ Proof. intros st f rest ts Es H. unfold check_completion. rewrite Es, H. reflexi
 
 Lemma process_scalar_gen : forall T st f rest k ty v f1 slot,
   cur_is st f rest ->
-  ((k = TString /\ ty = TyString /\ utf8_valid v = true) \/ (k = TNumber /\ ty = TyNumber) \/ (k = TTag /\ ty = TyTag)) ->
+  (((k = TString \/ k = TMultiline) /\ ty = TyString /\ utf8_valid v = true) \/ (k = TNumber /\ ty = TyNumber) \/ (k = TTag /\ ty = TyTag)) ->
   check_next_arg f ty (VStr v) true true (p_loaded st) = CnaOk f1 slot ->
   process T st (mk k v) = check_completion (replace_top f1 st) false.
 Proof.
   intros T st f rest k ty v f1 slot [Es Hc He Hfi] Hk E.
   assert (Hcmd : m_command T st (mk k v) = check_completion (replace_top f1 st) false).
   { unfold m_command. rewrite Hc. unfold m_arguments, m_argument. unfold mk. cbn [t_kind t_val]. rewrite Es.
-    destruct Hk as [(-> & -> & Hu)|[(-> & ->)|(-> & ->)]].
+    destruct Hk as [([->| ->] & -> & Hu)|[(-> & ->)|(-> & ->)]].
+    - rewrite Hu. cbn [negb]. unfold lift_cna. rewrite E.
+      destruct (check_completion (replace_top f1 st) false); reflexivity.
     - rewrite Hu. cbn [negb]. unfold lift_cna. rewrite E.
       destruct (check_completion (replace_top f1 st) false); reflexivity.
     - unfold lift_cna. rewrite E. destruct (check_completion (replace_top f1 st) false); reflexivity.
     - unfold lift_cna. rewrite E. destruct (check_completion (replace_top f1 st) false); reflexivity. }
   unfold process. unfold mk at 1. cbn [t_kind]. rewrite He.
-  destruct Hk as [(-> & _)|[(-> & _)|(-> & _)]]; exact Hcmd.
+  destruct Hk as [([->| ->] & _)|[(-> & _)|(-> & _)]]; exact Hcmd.
 Qed.
 
 Lemma process_list_gen : forall T st f rest items f1 slot,
@@ -121,7 +123,7 @@ Lemma one_arg_gen : forall T st f rest a f1 slot,
 Proof.
   intros T st f rest [ty v] f1 slot Hci Hok E. cbn [fst snd] in E.
   assert (Hsc : forall k s, v = VStr s ->
-            ((k = TString /\ ty = TyString /\ utf8_valid s = true) \/ (k = TNumber /\ ty = TyNumber) \/ (k = TTag /\ ty = TyTag)) ->
+            (((k = TString \/ k = TMultiline) /\ ty = TyString /\ utf8_valid s = true) \/ (k = TNumber /\ ty = TyNumber) \/ (k = TTag /\ ty = TyTag)) ->
             exists stX ts, steps T st [mk k s] = ostep (check_completion stX ts) /\
                  p_stack stX = f1 :: rest /\ p_cstate stX = CArgs /\ p_expected stX = None /\ same_env st stX).
   { intros k s -> Hk. exists (replace_top f1 st), false. cbn [steps].
@@ -131,7 +133,7 @@ Proof.
     unfold replace_top. rewrite Es. pcbn. repeat split; auto. }
   destruct ty as [| | | | | |o]; destruct v as [x|l|n|ns]; cbn in Hok; try contradiction.
   - apply (Hsc TTag x eq_refl). right. right. split; reflexivity.
-  - apply (Hsc TString x eq_refl). left. split; [reflexivity|]. split; [reflexivity|exact Hok].
+  - apply (Hsc (str_kind x) x eq_refl). left. split; [apply str_kind_cases|]. split; [reflexivity|exact Hok].
   - destruct Hok as (Hne & Hall).
     destruct (process_list_gen T st f rest l f1 slot Hci Hne Hall E) as (stX & A). exists stX, true. exact A.
   - apply (Hsc TNumber x eq_refl). right. left. split; reflexivity.
@@ -813,17 +815,17 @@ Qed.
 (* ';' after a complete command that takes no block *)
 Lemma process_semicolon : forall T st f S0,
   p_stack st = f :: S0 -> p_cstate st = CArgs -> passes (p_expected st) TSemicolon ->
-  is_test f = false -> d_accept_children (f_def f) = false ->
+  is_test f = false -> d_accept_children (f_def f) = false -> pending_param f = false ->
   process T st tk_semi =
   match complete_cb (with_cstate CNone (with_expected None st)) with
   | MTrue st3 => up st3
   | r => r
   end.
 Proof.
-  intros T st f S0 Es Hc Hp Ht Hch.
+  intros T st f S0 Es Hc Hp Ht Hch Hpp.
   rewrite process_passes by (cbn; congruence).
   unfold m_command. pcbn. rewrite Hc. unfold m_arguments, m_argument, tk_semi, mk. cbn [t_kind]. pcbn. rewrite Es.
-  pcbn. rewrite Es, Ht, Hch. cbn [orb].
+  pcbn. rewrite Es, Ht, Hch. cbn [orb]. rewrite Hpp.
   set (st3 := with_cstate CNone (with_expected None st)).
   assert (Es3 : p_stack st3 = f :: S0) by (unfold st3; pcbn; exact Es).
   rewrite (cc_semicolon st3 f S0 Es3 Ht Hch). reflexivity.
@@ -995,7 +997,7 @@ Section Cmds.
     assert (HtF : is_test fN = false) by (rewrite (is_test_def N fN D2); exact HntN).
     assert (HchF : d_accept_children (f_def fN) = false) by (rewrite D2; exact Hch).
     cbn [toks_cmd steps]. rewrite P0, steps_app, P2. cbn [steps].
-    rewrite (process_semicolon T st2 fN S0 S2 C2 E2 HtF HchF).
+    rewrite (process_semicolon T st2 fN S0 S2 C2 E2 HtF HchF (complete_no_pending fN Hcomp)).
     set (st3 := with_cstate CNone (with_expected None st2)).
     (* complete_cb: only `require` changes anything *)
     assert (Hcbk : complete_cb st3 = MTrue (with_loaded L' st3)).
